@@ -33,6 +33,11 @@ ASSUMPTIONS = [
     'serialiser theorems are for values whose strings hold code points <= 0x10FFFF (always true of a Rust String)',
     'indent arithmetic (indent + indent_size, " ".repeat) is modelled over unbounded N: usize overflow / allocation failure '
     'for astronomically large indents is outside the model',
+    'allocation meter (Json.parse_cost): the charge per allocation site (capacities from the source via TablesJson, '
+    'size_of::<Value>() = 32, size_of::<(String, Value)>() = 56, amortised-doubling growth charged as 4x the payload) is an '
+    'upper-bound model of liballoc; the run checks bytes really requested <= meter on every sampled input and the sizes',
+    'residue: real stack use (the theorems bound the recursion depth of the parser by max_depth; serialize / Drop / Clone of a '
+    'Value built programmatically with enormous nesting recurse without a limit, like any derived impl)',
 ]
 TRUSTED_EXTRA = [
     'ocaml/d_c13.ml converts number literals to IEEE doubles with OCaml float_of_string (glibc strtod) for the canonical '
@@ -122,8 +127,7 @@ def py_dump(v):
 
 def oracle_expect(text, max_depth):
     """Expected canonical outcome per RFC 8259 + depth limit from CPython, or None if CPython is not a faithful oracle."""
-    if 'N' in text or 'I' in text:      # NaN / Infinity / -Infinity are CPython extensions; handled by parse_constant, but
-        pass                            # keep going: parse_constant raises, which is the RFC answer
+    # NaN / Infinity / -Infinity are CPython extensions: parse_constant raises for them, which is the RFC answer
     r = py_parse(text)
     if r is None:
         return None
